@@ -72,6 +72,8 @@ type c23world struct {
 	log      []string
 	replicas bool  // the client switches master and replica targets in two concurrent goroutines
 	waiters  int32 // goroutines holding back a failing answer, see holdFailure
+	heldMu   sync.Mutex
+	heldR    string // id of the last replica-side switch goroutine that held an answer back
 }
 
 func c23newWorld(belief [2]int, master int) *c23world {
@@ -101,15 +103,43 @@ func c23count(sub string) int {
 // holdFailure makes the client's concurrent master/replica switch deterministic: an answer that makes one
 // _switchTarget fail is held back until the sibling _switchTarget goroutine has finished (or is held back as
 // well). Otherwise _refresh would go on to the next sentinel while the sibling may still store its connection.
-func (w *c23world) holdFailure() {
+// When both are held back the replica side goes first and the master side reports only after the replica-side
+// goroutine has ended, so that the order in which _refresh sees the two results is fixed.
+func (w *c23world) holdFailure(side byte) {
 	if !w.replicas {
 		return
+	}
+	if side == 'r' {
+		w.heldMu.Lock()
+		w.heldR = c23goid()
+		w.heldMu.Unlock()
 	}
 	atomic.AddInt32(&w.waiters, 1)
 	for c23count(c23switchGoroutine) > int(atomic.LoadInt32(&w.waiters)) {
 		runtime.Gosched()
 	}
+	if side == 'm' {
+		w.heldMu.Lock()
+		sib := w.heldR
+		w.heldMu.Unlock()
+		if sib != "" {
+			for c23count("goroutine "+sib+" [") > 0 {
+				runtime.Gosched()
+			}
+		}
+	}
 	atomic.AddInt32(&w.waiters, -1)
+}
+
+// c23goid is the id of the calling goroutine as printed in stack dumps
+func c23goid() string {
+	b := make([]byte, 64)
+	n := runtime.Stack(b, false)
+	f := strings.Fields(string(b[:n]))
+	if len(f) < 2 {
+		return ""
+	}
+	return f[1]
 }
 
 func c23split(addr string) (string, string) {
@@ -168,7 +198,7 @@ func (c *c23conn) dial() error {
 	c.w.mu.Unlock()
 	if down {
 		if c.kind != 's' {
-			c.w.holdFailure()
+			c.w.holdFailure(c.side)
 		}
 		return c23errDown
 	}
@@ -213,7 +243,7 @@ func (c *c23conn) do(argv []string) RedisResult {
 	if c.down() {
 		w.mu.Unlock()
 		if isRole {
-			w.holdFailure()
+			w.holdFailure(c.side)
 		}
 		return NewErrorResult(c23errDown)
 	}
@@ -221,7 +251,7 @@ func (c *c23conn) do(argv []string) RedisResult {
 	failing := isRole && ((c.side == 'm' && c.role != "master") || (c.side == 'r' && c.role != "slave"))
 	w.mu.Unlock()
 	if failing {
-		w.holdFailure()
+		w.holdFailure(c.side)
 	}
 	return NewResult(m, nil)
 }
